@@ -3,7 +3,7 @@ import random
 from ..framework import Check
 from .. import mgr_check, mgr_common as C
 
-THEOREMS = ["C03_never_crashes", "C03_reachable_invariant", "C03_bad_length_only_offender", "C03_bad_size_range",
+THEOREMS = ["C03_fuel_bound", "C03_rank_le_2", "C03_never_crashes", "C03_reachable_invariant", "C03_bad_length_only_offender", "C03_bad_size_range",
             "C03_ex_survives"]
 CHECKERS = ["C03"]
 
@@ -75,7 +75,29 @@ def directed(rng: random.Random, tier: str):
                 hs.round([(order[0], mk()), (order[1], mk()), (4, hs.publish(100, b"z"))], [1, 2, 3, 4], 1)
             hs.round([(4, hs.publish(100, b"y"))], [1, 4], 2)
             out.append(hs)
+    # cascades: n subscribers of CLIENT_CLOSED all fail at the same instant; the first departure is published,
+    # every failed delivery is handled INSIDE the delivery that discovered it (one nesting level per dead client)
+    for n, deep in ([(12, False), (40, False), (300, True)]):
+        hs = C.History(loglevel=60, tag="cascade-deep" if deep else "cascade")
+        hs.impl_only = deep      # beyond the model's evaluation budget (FUEL=400): see C03_fuel_bound for the exact need
+        for _ in range(n):
+            hs.round([], [], 0, accept=True)
+        w = list(range(1, n + 1))
+        for c in range(1, n + 1):
+            hs.round([(c, hs.sub("sub", C.MT["CLIENT_CLOSED"]))], w, 0)
+        for c in range(2, n + 1):
+            hs.fault(c, 0)
+        hs.round([(1, hs.eof())], w, 1)
+        hs.round([], w, 2)
+        out.append(hs)
     return out
+
+
+def key_map(key, desc, h):
+    # the recorded finding is the DEEP cascade only; a RecursionError anywhere else is a violation
+    if key == "crash:RecursionError" and h.tag == "cascade-deep":
+        return "crash:RecursionError:deep-cascade"
+    return key
 
 
 def run(chk: Check):
@@ -84,10 +106,11 @@ def run(chk: Check):
         model_profiles={"malformed": 220, "faults": 220, "routing": 60},
         oracle_flavors={},
         checkers=CHECKERS,
-        extra_histories=directed,
+        extra_histories=directed, known_key_map=key_map,
         assumptions=[
-            "XFuel (the model's budget for nested forward_message calls) stands for Python's recursion limit: a chain of "
-            "more than ~100 clients all failing inside one delivery is outside the theorem and the harness",
+            "XFuel (the model's budget for nested forward_message calls) stands for Python's recursion limit; the theorem "
+            "C03_fuel_bound states how much nesting a history can need; the deep cascade (recorded finding) is run "
+            "against the implementation only",
             "file-descriptor exhaustion, memory, and a peer that stops reading (documented stall) are not modelled",
         ])
 
